@@ -160,6 +160,15 @@ class Ledger:
         for o in b.origins(pay_term['args'][0]):
             if o[0] == 'call' and U.callee_name(b.term(o[1])) == 'next':
                 return True
+            if o[0] == 'arg' and b.kind == 'Closure':
+                # the slot is the item of an internal iteration (`.for_each(|slot| ..)`) in the parent
+                parent = self.fx.lib.by_key.get(b.j.get('parent'))
+                if parent is not None:
+                    for bb, t in parent.calls(include_cleanup=False):
+                        if U.callee_name(t) == 'for_each' and len(t['args']) == 2:
+                            d = U.def_rvalue(parent, t['args'][1])
+                            if d and d[0] == 'rv' and d[3].get('closure') == b.key:
+                                return True
         return False
 
     # ---- aggregates
